@@ -378,5 +378,24 @@ func FixedByName(n string) *Fixed {
 			return f
 		}
 	}
+	var seed uint64
+	var idx int
+	if k, _ := fmt.Sscanf(n, "gen-%d-%d", &seed, &idx); k == 2 {
+		return Generated(seed, idx)
+	}
 	return nil
+}
+
+// Generated: a configuration of the shared federation generator (harness/fedlab), named so that it
+// can be rebuilt from its name: gen-<seed>-<index>.
+func Generated(seed uint64, idx int) *Fixed {
+	k := fedlab.KnobsFor(seed, idx, fedlab.KnobsAll())
+	cfg := fedlab.BuildConfig(seed, idx, k)
+	return &Fixed{
+		Name:   fmt.Sprintf("gen-%d-%d", seed, idx),
+		Config: cfg,
+		Universe: func(r *common.Rand) *fedlab.Universe {
+			return fedlab.GenUniverse(r, k, cfg)
+		},
+	}
 }
